@@ -232,8 +232,36 @@ func genPoints(r *eng.Rand, family string, n int, mods []uint64) (pts []uint64, 
 		return true
 	}
 	seq := uint64(0)
+	var consec, negLast uint64 // state of the families added by the coverage audit (ext cases only)
+	negPending := false
 	draw := func(f string) uint64 {
 		switch f {
+		case "conseclarge": // K+1, K+2, ...: differences of 1 between points far above 2^32
+			if consec == 0 {
+				consec = 1<<40 | r.U64()>>16
+			}
+			consec++
+			return consec
+		case "neg": // pairs x, m*q-x: x_k = -x_j modulo one prime, so x_k/(x_k-x_j) = 1/2 there
+			q := mods[r.N(len(mods))]
+			if negPending {
+				negPending = false
+				m := 1 + r.U64()%(^uint64(0)/q)
+				return m*q - negLast%q
+			}
+			negLast = 1 + r.U64()%(q-1)
+			if r.Bool() {
+				negLast = 1 + uint64(r.N(1000))
+			}
+			negPending = true
+			return negLast
+		case "halfq": // around q/2 = 2^-1 mod q, possibly shifted by q
+			q := mods[r.N(len(mods))]
+			x := (q+1)/2 + uint64(r.N(5)) - 2
+			if r.Bool() && x <= ^uint64(0)-q {
+				x += q
+			}
+			return x
 		case "seq":
 			seq++
 			return seq
